@@ -75,6 +75,24 @@ pub(crate) mod __verif_k {
     }
     pub fn gc_obj_stub(_gc: &mut GC, _o: Object) {}
     pub fn gc_unit_stub(_gc: &mut GC) {}
+    // recorders for the two other collector entry points of VM::run (C03/C04): which values are handed to the collector
+    // when a run starts (the program's constants) and which value is taken out of it when a run ends (the result)
+    static mut ADOPTED: u8 = 0;
+    static mut ADOPTED_WORDS: [usize; 3] = [0; 3];
+    static mut UNTRACED: u8 = 0;
+    static mut UNTRACED_WORD: usize = 0;
+    pub fn gc_adopt_stub(_gc: &mut GC, o: Object) {
+        unsafe {
+            if (ADOPTED as usize) < 3 { ADOPTED_WORDS[ADOPTED as usize] = word(o); }
+            ADOPTED += 1;
+        }
+    }
+    pub fn gc_untrace_stub(_gc: &mut GC, o: Object) {
+        unsafe {
+            UNTRACED += 1;
+            UNTRACED_WORD = word(o);
+        }
+    }
 
     const H: usize = 4; // stack window of the contracts
 
@@ -141,8 +159,8 @@ pub(crate) mod __verif_k {
             #[kani::stub(std::fmt::format, fmt_stub)]
             #[kani::stub(crate::vm::VM::next, crate::vm::VM::next_stub)]
             #[kani::stub(crate::gc::GC::trace, gc_obj_stub)]
-            #[kani::stub(crate::gc::GC::maybe_trace, gc_obj_stub)]
-            #[kani::stub(crate::gc::GC::untrace, gc_obj_stub)]
+            #[kani::stub(crate::gc::GC::maybe_trace, gc_adopt_stub)]
+            #[kani::stub(crate::gc::GC::untrace, gc_untrace_stub)]
             #[kani::stub(crate::gc::GC::run, gc_run_stub)]
             #[kani::stub(crate::gc::GC::destroy, gc_unit_stub)]
             $(#[$m])*
@@ -201,6 +219,53 @@ pub(crate) mod __verif_k {
         match r { Ok(v) => assert!(same(v, pre[h - 1])), Err(_) => assert!(false) }
         assert!(vm.ip == 1);
         kani::cover!(pre[2].tag() == Type::Function);
+        std::mem::forget(vm);
+    }}
+
+    // C03/C04: the run's result is taken out of the collector exactly once, at Halt, and it is the value returned;
+    // an error exit hands nothing over (everything stays with the machine's collector and is released with it)
+    contract! { fn k_halt_hands_over_result() {
+        let (mut vm, pre, h) = mk_vm(2);
+        unsafe { UNTRACED = 0; UNTRACED_WORD = 0; }
+        let r = step(&mut vm, vec![set_op(OpCode::Pop), OpCode::Halt as u8], vec![], 0);
+        match r { Ok(v) => assert!(same(v, pre[h - 1])), Err(_) => assert!(false) }
+        unsafe {
+            assert!(UNTRACED == 1);
+            assert!(UNTRACED_WORD == word(pre[h - 1]));
+            assert!(GC_RUNS == 0);
+        }
+        kani::cover!(pre[1].tag() == Type::Int);
+        std::mem::forget(vm);
+    }}
+
+    contract! { fn k_error_exit_hands_over_nothing() {
+        let (mut vm, pre, _h) = mk_vm(2);
+        unsafe { UNTRACED = 0; }
+        // Not on a non-boolean: the run ends with an error at this instruction
+        kani::assume(pre[1].tag() != Type::Bool);
+        let r = step(&mut vm, vec![set_op(OpCode::Not), OpCode::Halt as u8], vec![], 0);
+        assert!(r.is_err());
+        unsafe { assert!(UNTRACED == 0 && GC_RUNS == 0); }
+        kani::cover!(pre[1].tag() == Type::Int);
+        std::mem::forget(vm);
+    }}
+
+    // C03/C04: every constant of the program is offered to the collector when the run starts, once, in order
+    // (GC::maybe_trace keeps the heap-allocated ones: gc.rs), so literals live as long as the machine and are released with it
+    contract! { fn k_prologue_adopts_constants() {
+        let mut vm = VM::new();
+        let c0 = arb_imm().0;
+        let c1 = crate::object::Object::float(1.5, &mut GC::new());
+        let c2 = arb_imm().0;
+        unsafe { CALLS = 1; PRE_H = 0; PRE_NFRAMES = 0; ADOPTED = 0; UNTRACED = 0; }
+        let r = vm.run(Bytecode { constants: vec![c0, c1, c2], instructions: vec![OpCode::Halt as u8] });
+        assert!(r.is_ok());
+        unsafe {
+            assert!(ADOPTED == 3);
+            assert!(ADOPTED_WORDS[0] == word(c0) && ADOPTED_WORDS[1] == word(c1) && ADOPTED_WORDS[2] == word(c2));
+            assert!(UNTRACED == 1 && UNTRACED_WORD == word(Object::null()));
+        }
+        kani::cover!(c0.tag() == Type::Int);
         std::mem::forget(vm);
     }}
 
